@@ -17,6 +17,19 @@ fn gen(rng: &mut Rng, _i: u64) -> String {
 		if rng.chance(1, 6) { data.push(0); }
 	}
 	data.truncate(n);
+	// a long run: lengths around 256 and beyond (the length comparison must not be done in 8 bits)
+	if rng.chance(1, 8) {
+		let k = match rng.below(4) { 0 => 255 + rng.below(6), 1 => 256 + rng.below(12), 2 => 510 + rng.below(6), _ => 250 + rng.below(400) } as usize;
+		let at = rng.below(data.len() as u64 + 1) as usize;
+		let run: Vec<u8> = (0..k).map(|_| rng.range(0x21, 0x7d) as u8).collect();
+		let term: &[u8] = match rng.below(3) { 0 => &[0], 1 => &[0x80], _ => &[] };
+		let mut nd = data[..at].to_vec();
+		if at > 0 && rng.chance(1, 2) { nd.push(0); }
+		nd.extend_from_slice(&run);
+		nd.extend_from_slice(term);
+		nd.extend_from_slice(&data[at..]);
+		data = nd;
+	}
 	if rng.chance(1, 3) && !data.is_empty() {
 		// end the buffer inside a run
 		let k = rng.below(6) as usize;
@@ -30,7 +43,40 @@ fn gen(rng: &mut Rng, _i: u64) -> String {
 	format!("strings data={} min={} minnul={} strict={} base={}", hex(&data), min, minnul, strict as u8, base)
 }
 
+/// kind "big": a sparse buffer of `len` zero bytes with `text` planted at offset `at` (buffers of 4 GiB and more: the
+/// iterator's resume offset must not be truncated to 32 bits)
+fn run_big(case: &str) -> String {
+	let len: usize = field(case, "len").parse().unwrap();
+	let at: usize = field(case, "at").parse().unwrap();
+	let text = unhex(field(case, "text"));
+	let p = unsafe { libc::mmap(std::ptr::null_mut(), len, libc::PROT_READ | libc::PROT_WRITE, libc::MAP_PRIVATE | libc::MAP_ANONYMOUS | libc::MAP_NORESERVE, -1, 0) };
+	if p == libc::MAP_FAILED {
+		return "!nomem".to_string();
+	}
+	let data: &mut [u8] = unsafe { std::slice::from_raw_parts_mut(p as *mut u8, len) };
+	data[at..at + text.len()].copy_from_slice(&text);
+	let data: &[u8] = data;
+	let cfg = Config { min_length: field(case, "min").parse().unwrap(), min_length_nul: field(case, "minnul").parse().unwrap(), strict_nul: field(case, "strict") == "1", heuristic: Heuristic::PrintableAscii };
+	let base: u32 = field(case, "base").parse().unwrap();
+	let mut it = cfg.enumerate(base, data);
+	let mut out = Vec::new();
+	let p0 = data.as_ptr() as usize;
+	// a correct iterator yields each run once; four calls are enough to see a run reported twice
+	for _ in 0..4 {
+		match it.next() {
+			Some(f) => out.push(format!("{}:{}:{}:{}", f.string.as_ptr() as usize - p0, f.string.len(), f.address, f.has_nul as u8)),
+			None => break,
+		}
+	}
+	let again = if it.next().is_none() { "none" } else { "some" };
+	unsafe { libc::munmap(p, len) };
+	format!("found={} again={}", join(&out, ","), again)
+}
+
 fn run(case: &str) -> String {
+	if case.starts_with("big ") {
+		return run_big(case);
+	}
 	let data = unhex(field(case, "data"));
 	let cfg = Config { min_length: field(case, "min").parse().unwrap(), min_length_nul: field(case, "minnul").parse().unwrap(), strict_nul: field(case, "strict") == "1", heuristic: Heuristic::PrintableAscii };
 	let base: u32 = field(case, "base").parse().unwrap();
